@@ -79,9 +79,9 @@ Inductive hop :=
 | HWrite (v : pyval)               (* Writer.write(record) *)
 | HFlush
 | HBlockRaw (n : Z) (raw : bytes)  (* write_block with a donor block: record count and decompressed payload *)
-| HReopen.
+| HReopen (si : Z).
 
-Definition hstep (wo : wopts) (validator : bool) (e : env) (s : schema) (sync : bytes) (si : Z)
+Definition hstep (wo : wopts) (validator : bool) (e : env) (s : schema) (sync : bytes)
                  (st : wstate) (o : hop) : wstate * string :=
   match o with
   | HWrite v =>
@@ -89,32 +89,32 @@ Definition hstep (wo : wopts) (validator : bool) (e : env) (s : schema) (sync : 
         if validator then match validate FUEL wo e s (Some v) with Ok true => true | _ => false end else true in
       if accepted then
         match elab FUEL wo e s v with
-        | WOk a => (wstep idc sync si st (OWrite a), "ok")
-        | WErr => (wstep idc sync si st OWriteBad, "raised")
+        | WOk a => (wstep idc sync st (OWrite a), "ok")
+        | WErr => (wstep idc sync st OWriteBad, "raised")
         | WUnspec => (st, "U")
         | WFuel => (st, "FUEL")
         end
-      else (wstep idc sync si st OWriteBad, "raised")
-  | HFlush => (wstep idc sync si st OFlush, "ok")
+      else (wstep idc sync st OWriteBad, "raised")
+  | HFlush => (wstep idc sync st OFlush, "ok")
   | HBlockRaw n raw =>
       let st' := flush idc sync st in
-      (mkW (out st' ++ block_bytes idc sync n raw)%list [] 0, "ok")
-  | HReopen => (wstep idc sync si st OReopen, "ok")
+      (mkW (out st' ++ block_bytes idc sync n raw)%list [] 0 (sint st), "ok")
+  | HReopen si => (wstep idc sync st (OReopen si), "ok")
   end.
 
 (* after every operation: its status and the bytes it appended to the stream *)
-Fixpoint run_hops (wo : wopts) (validator : bool) (e : env) (s : schema) (sync : bytes) (si : Z)
+Fixpoint run_hops (wo : wopts) (validator : bool) (e : env) (s : schema) (sync : bytes)
                   (st : wstate) (ops : list hop) : string :=
   match ops with
   | [] => ""
   | o :: ops =>
-      let (st', status) := hstep wo validator e s sync si st o in
-      status ++ ":" ++ tohex (skipn (List.length (out st)) (out st')) ++ ";" ++ run_hops wo validator e s sync si st' ops
+      let (st', status) := hstep wo validator e s sync st o in
+      status ++ ":" ++ tohex (skipn (List.length (out st)) (out st')) ++ ";" ++ run_hops wo validator e s sync st' ops
   end.
 
 Definition run_history (wo : wopts) (validator : bool) (e : env) (s : schema) (meta : list (bytes * bytes))
                        (sync : bytes) (si : Z) (ops : list hop) : string :=
-  "H:" ++ tohex (header_bytes meta sync) ++ ";" ++ run_hops wo validator e s sync si (wcreate sync meta) ops.
+  "H:" ++ tohex (header_bytes meta sync) ++ ";" ++ run_hops wo validator e s sync (wcreate sync meta si) ops.
 
 Definition show_outcome (o : outcome) : string :=
   match o with EndOK => "END" | Raised => "RAISED" | NoFuel => "FUEL" end.
